@@ -81,7 +81,7 @@ pub fn check(sc: &Scenario, env: &mut Env) -> Result<Outcome, HarnessError> {
         if s.panic.is_some() {
             continue;
         }
-        let ex = expect(&layers, &u, &sc.cwd)?;
+        let ex = expect(&layers, &u, &env.root_text)?;
         let tag = format!("permutation {:?}", perm);
         // meet: exactly the entries every layer keeps, in the order of the underlying walk
         let actual: Vec<String> = s.ys.iter().map(|y| y.wp.clone().unwrap_or_default()).collect();
